@@ -70,6 +70,10 @@ SEL20 = [('none', 'none', 'noop', False), ('none', 'none', 'noop', True), ('none
 SEL8 = [SEL20[i] for i in (0, 1, 3, 5, 6, 10, 2, 14, 20, 21)]
 
 
+class SpecialEv(edzed.EventType):
+    """An application-defined event type (not a string); the probe blocks handle any type."""
+
+
 def dags(n):
     pairs = [(i, j) for i in range(n) for j in range(n) if i != j]
     out = []
@@ -112,6 +116,12 @@ def configs(tier):
             for exp in (None, 1e9, 10, 0):
                 out.append(dict(kind='profiles', profs=(prof, ('none', 'none', 'noop', True)),
                                 edges=(), ext=None, ts=ts, exp=exp))
+    # start-up events carrying a special (non-string) event type: early initialisation of the
+    # destination must not depend on the kind of the event type
+    for (p0, p1) in itertools.product(SEL20, repeat=2):
+        for edges in dags(2):
+            if edges:
+                out.append(dict(kind='profiles', profs=(p0, p1), edges=edges, ext=None, etype='special'))
     sel3 = SEL8 if tier == 'quick' else SEL20[:12]
     d3 = dags(3)
     for profs in itertools.product(sel3, repeat=3):
@@ -215,7 +225,8 @@ def run_profiles(cfg, order, acc):
                 bcfg['init_regular'] = ('raise', Fault('init_regular'))
             if idf:
                 kw['initdef'] = f'initdef{i}'
-            outs = [edzed.Event(f'b{j}', 'ev') for (a_, j) in edges if a_ == i]
+            outs = [edzed.Event(f'b{j}', SpecialEv() if cfg.get('etype') == 'special' else 'ev')
+                    for (a_, j) in edges if a_ == i]
             if outs:
                 kw['on_output'] = outs
             blocks[i] = cls(f'b{i}', log=log, cfg=bcfg, **kw)
@@ -587,7 +598,7 @@ def run_initasync(cfg, acc):
 
 
 def cfg_key(cfg):
-    return (cfg['profs'], cfg['edges'], cfg['ext'], cfg.get('ts'), cfg.get('exp'))
+    return (cfg['profs'], cfg['edges'], cfg['ext'], cfg.get('ts'), cfg.get('exp'), cfg.get('etype'))
 
 
 def run_config(cfg):
